@@ -31,7 +31,10 @@ func init() {
 			"decode times start at a boundary value (0, 2^32-1, 2^32, 2^40 ...), are cumulative, with occasional gaps between fragments; " +
 			"extra boxes: emsg v0/v1 via AddEmsg, prft/free/skip/uuid/unknown inserted before moof, boxes via AddChild after mdat, file-level boxes between fragments, " +
 			"large-size mdat header, trun fields dropped in favour of trex defaults (only without optimisation); EncOptimize on/off, Encode/EncodeSW, " +
-			"fragment-wise or MediaSegment encode, +-styp, +-sidx (top-level and per-segment, filled with true offsets). idx%8 selects an emphasis " +
+			"fragment-wise or MediaSegment encode, +-styp, +-sidx (top-level and per-segment, filled with true offsets). " +
+			"idx%4 == 1: the same histories with 0..3 observer calls per fragment inserted between the sample additions (Fragment.Size, Fragment.Info, Moof.Info at several detail levels, " +
+			"Fragment.Encode/EncodeSW to a discard writer while EncOptimize is still OptimizeNone, and MediaSegment.Size/Info/Encode for fragments that are added to their MediaSegment before they are filled), " +
+			"EncOptimize set on the fragment / the segment BEFORE the additions in half of them instead of right before encoding. idx%8 selects an emphasis " +
 			"(5: single-track fragments only, 6: no extra boxes, 7: tame realistic values); idx%64 == 9: long runs (1 or 2 fragments of 1023..3000 samples per track of 8..24 bytes, " +
 			"two thirds of the tracks with every field constant so that the optimised trun carries no per-sample field). " +
 			"Every payload is stamped with (track, ordinal). Non-trivial = the file holds >= 2 samples and at least one of {a traf with >1 trun, a multi-track fragment, " +
@@ -41,7 +44,8 @@ func init() {
 			"AddFullSample/AddSample/AddSamples/AddSampleInterval only on CreateFragment fragments (documented single-trun calls)",
 			"track ids passed to the *ToTrack calls exist in the fragment; decode times passed with the samples are consistent (cumulative durations)",
 			"nothing is placed between moof and mdat (the file decoder documents that it rejects it); file-level emsg boxes sit directly before their fragment, after styp/sidx",
-			"API calls or encoders that return an error put the fragment outside the property: counted in op_errors, the fragment is left out of the file",
+			"a mid-history Encode is only made while EncOptimize is OptimizeNone (Encode with OptimizeTrun is documented to rewrite tfhd/trun: OptimizeTfhdTrun 'Don't optimize again'); Size and Info are pure observers at any time",
+		"API calls or encoders that return an error put the fragment outside the property: counted in op_errors, the fragment is left out of the file",
 			"reference expansion follows ISO/IEC 14496-12 8.8.7/8.8.8 (ref/frag), box boundaries from ref/boxwalk",
 		},
 		NumCases: func(env *runner.Env) int {
@@ -200,6 +204,9 @@ func options(idx int) genfrag.Options {
 	case 7:
 		o.Tame = true
 	}
+	if idx%4 == 1 {
+		o.Observers = true
+	}
 	if idx%64 == 9 {
 		o = genfrag.Options{LongRuns: true, NoExtra: idx%128 == 9}
 	}
@@ -302,9 +309,32 @@ func check(c *runner.Ctx, h *genfrag.History) {
 		if fs.LargeMdat {
 			c.Count("large_mdat_header", 1)
 		}
+		// observer calls between the additions (idx%4 == 1): where they sit and what the configuration was at that moment
+		added := 0
+		for _, op := range fs.Ops {
+			if !genfrag.IsObserver(op.Kind) {
+				added += len(op.Samples)
+				continue
+			}
+			where := "between-additions"
+			switch {
+			case added == 0:
+				where = "before-first-sample"
+			case added == fs.NSamples():
+				where = "after-last-sample"
+			}
+			c.Seen("observer_position", where)
+			c.Seen("observer_config", fmt.Sprintf("%s fragment.EncOptimize-set-before=%v final=%s", strings.TrimPrefix(op.Kind, "Observe:"), fs.PreOptimize, opt))
+			if where == "between-additions" && h.Optimize && fs.PreOptimize {
+				c.Count("observers_between_additions_with_OptimizeTrun_already_set", 1)
+			}
+		}
 	}
 	for _, s := range b.Segs {
 		c.Seen("segment_layout", fmt.Sprintf("styp=%v sidx=%d viaMediaSegment=%v", s.Spec.Styp, s.Spec.NSidx, s.Spec.ViaMediaSegment))
+		if s.Spec.AttachFirst {
+			c.Seen("media_segment_filled_after_attach", fmt.Sprintf("MediaSegment.EncOptimize-set-before=%v final=%s", s.Spec.PreOptimize, opt))
+		}
 	}
 	c.Seen("top_sidx", fmt.Sprint(len(b.TopSidx)))
 	if nsamples >= 2 && (multiTrun || multiTrack || h.Optimize || extra) {
